@@ -26,7 +26,7 @@ ASSUMPTIONS = ["a record with one unlisted chromosome AND an out-of-range positi
                "the tabix loader is fed upper-triangular, position-sorted input as it requires; for streaming loaders 'rejected' means: "
                "the run fails, or the record is not counted in any pixel",
                "pairix loader not exercised (pypairix not installed)"]
-EXPECT_CLASSES = {"*": ["chunk:categorical-chromosomes", "binsizes", "rec:kept", "rec:reflected", "rec:dropped-unknown", "rec:dropped-lower", "rec:refused", "loader:cload-pairs",
+EXPECT_CLASSES = {"*": ["bins-form", "chunk:categorical-chromosomes", "binsizes", "rec:kept", "rec:reflected", "rec:dropped-unknown", "rec:dropped-lower", "rec:refused", "loader:cload-pairs",
                         "loader:load-coo", "loader:load-bg2", "loader:tabix", "loader:tabix-schedule"]}
 
 TRIL = ["reflect", "drop", "raise", None]
@@ -219,6 +219,33 @@ def _records_table(R, table, flavour, tier, only, tindex=0):
                             R.mismatch("record-in-wrong-pixel:categorical-chromosome-columns", innerC, f"categories={cats} differences (row, pixel)={bad}")
                     except Exception as ex:
                         R.mismatch("valid-chunk-raises:" + type(ex).__name__, innerC, f"{ex!s:.300}")
+                # -- the same chunk against the SAME bin table handed over in another form (row labels that are not 0..n-1, int32
+                #    coordinates, chromosome column as plain strings / unordered categorical): the table's content decides, not its form
+                for bform in (("offset-labels", "reversed-labels", "string-labels", "repeated-labels", "int32-coordinates", "object-chrom", "unordered-categorical")
+                              if (ob, tril, sided) == (0, "reflect", False) else ()):
+                    innerB = {"table": tname, "names": flavour, "opt": opt, "chunk": "all-valid", "bins_form": bform}
+                    if not (only is None or only == innerB):
+                        continue
+                    R.c["transitions"] += 1
+                    R.c["evaluations"] += 1
+                    R.c["nontrivial"] += 1
+                    R.classes["bins-form"] += 1
+                    b2 = {"offset-labels": lambda: bdf.set_axis(list(range(10, 10 + n))), "reversed-labels": lambda: bdf.set_axis(list(range(n - 1, -1, -1))),
+                          "string-labels": lambda: bdf.set_axis([f"r{q}" for q in range(n)]), "repeated-labels": lambda: bdf.set_axis([0] * n),
+                          "int32-coordinates": lambda: bdf.astype({"start": np.int32, "end": np.int32}),
+                          "object-chrom": lambda: bdf.assign(chrom=bdf["chrom"].astype(str).astype(object)),
+                          "unordered-categorical": lambda: bdf.assign(chrom=pd.Categorical(bdf["chrom"].astype(str), categories=names))}[bform]()
+                    recs = [allrecs[k] for k in okidx]
+                    try:
+                        sanB = sanitize_records(b2, schema="pairs", decode_chroms=True, is_one_based=bool(ob), tril_action=tril, sort=False, validate=True)
+                        out = sanB(_frame(recs, tags=False))
+                        gotB = {int(ix): (int(b1), int(bb)) for ix, b1, bb in zip(out.index, out["bin1_id"], out["bin2_id"])}
+                        wantB = {pos: (exp[k][1], exp[k][2]) for pos, k in enumerate(okidx) if exp[k][0] == "kept"}
+                        if gotB != wantB:
+                            bad = sorted(set(gotB.items()) ^ set(wantB.items()))[:6]
+                            R.mismatch("record-in-wrong-pixel:bin-table-form", innerB, f"differences (row, pixel)={bad}")
+                    except Exception as ex:
+                        R.mismatch("valid-chunk-raises:" + type(ex).__name__, innerB, f"{ex!s:.300}")
                 # -- the same chunk under other row labels (all equal, reversed); records told apart by their first position column
                 for lab in ("repeated", "reversed"):
                     innerL = {"table": tname, "names": flavour, "opt": opt, "chunk": "all-valid", "labels": lab}
